@@ -9,7 +9,7 @@ out=/verif/seeded/$id; mkdir -p $out
 cd $wt || exit 2
 cp _out/patch.diff $out/patch.diff
 [ -f _out/notes.md ] && cp _out/notes.md $out/notes.md
-demos=$(git status --porcelain | grep '^??' | awk '{print $2}' | grep '_test.go$')
+demos=$(git status --porcelain | grep '^??' | awk '{print $2}' | grep '_test.go$' | tr '\n' ' ')
 log=$out/confirm.log; : > $log
 # clean state: revert everything tracked, keep demo aside
 mkdir -p /tmp/demo-$id; for d in $demos; do mkdir -p /tmp/demo-$id/$(dirname $d); cp $d /tmp/demo-$id/$d; cp $d $out/$(basename $d); rm $d; done
